@@ -9,6 +9,8 @@ use crate::{
 pub(crate) struct SourceLineRanges {
     pub(crate) line_number_end: usize,
     pub(crate) token_ranges: Option<Vec<Range<usize>>>,
+    /// If the line failed to tokenize, the part of the line the error is about.
+    pub(crate) tokenization_error_range: Option<Range<usize>>,
     pub(crate) length: usize,
 }
 
@@ -75,7 +77,11 @@ impl SourceFileMap {
             DiagnosticMessage::Error(file_line_number, err) => {
                 match &err.error {
                     InterpreterError::Syntax(SyntaxError::Tokenization(t)) => {
-                        let range = t.string_range(self.file_line_ranges[*file_line_number].length);
+                        let ranges = &self.file_line_ranges[*file_line_number];
+                        let range = ranges
+                            .tokenization_error_range
+                            .clone()
+                            .unwrap_or_else(|| t.string_range(ranges.length));
                         return Some((*file_line_number, range));
                     }
                     _ => {}
